@@ -64,7 +64,7 @@ func b2i(b bool) int {
 	return 0
 }
 
-// touchAges gives every blob the model knows an age (new ones start at 0; re-pushes do not renew).
+// touchAges gives every blob the model knows an age (new ones start at 0; acknowledged re-uploads reset it, see opPushBlob/opPushManifest).
 func (g *gcState) touchAges() {
 	for _, rn := range gcRepos {
 		mr := g.repo(rn)
@@ -357,13 +357,46 @@ func (g *gcState) opPushBlob(t *rapid.T) {
 	rn := rapid.SampledFrom(gcRepos).Draw(t, "repo")
 	b := rapid.SampledFrom(blobPool).Draw(t, "blob")
 	d := dig("sha256", b)
-	r := g.do("POST", "/v2/"+rn+"/blobs/uploads/?digest="+d, b, nil)
-	g.logf("pushBlob %s %s -> %d", rn, short(d), r.code)
+	proto := rapid.SampledFrom([]string{"post", "post", "post+put", "post+patch+put", "post+patch+wait+put"}).Draw(t, "protocol")
+	_, again := g.repo(rn).blobs[d]
+	var r resp
+	switch proto {
+	case "post":
+		r = g.do("POST", "/v2/"+rn+"/blobs/uploads/?digest="+d, b, nil)
+	default:
+		r = g.do("POST", "/v2/"+rn+"/blobs/uploads/", nil, nil)
+		if r.code != 202 {
+			g.abandon("session refused")
+		}
+		loc := r.hdr.Get("Location")
+		if proto == "post+put" {
+			r = g.do("PUT", loc+"&digest="+d, b, nil)
+			break
+		}
+		r = g.do("PATCH", loc, b, hdr("Content-Range", fmt.Sprintf("0-%d", len(b)-1)))
+		if r.code != 202 {
+			g.abandon("chunk refused")
+		}
+		loc = r.hdr.Get("Location")
+		if proto == "post+patch+wait+put" {
+			// the data was written long ago; the upload is completed (acknowledged) only now
+			g.advance(2 * time.Hour)
+			g.class("upload-completed-long-after-last-write")
+		}
+		r = g.do("PUT", loc+"&digest="+d, nil, nil)
+	}
+	g.logf("pushBlob %s %s (%s) -> %d", rn, short(d), proto, r.code)
 	if r.code != 201 {
 		g.abandon("blob push refused")
 	}
 	g.repo(rn).blobs[d] = b
 	g.universe[d] = true
+	// an acknowledged upload is a recent upload, whether or not the content was there before
+	g.touchAges()
+	if again && g.age[rn][d] > 0 {
+		g.class("old-blob-uploaded-again")
+	}
+	g.age[rn][d] = 0
 }
 
 // drawBlobRef picks a config/layer digest: usually a plain blob, sometimes a digest that is also a manifest (aliasing).
@@ -472,7 +505,14 @@ func (g *gcState) opPushManifest(t *rapid.T) {
 	if r.panicV != nil || r.code != 201 {
 		g.abandon(fmt.Sprintf("manifest refused %d", r.code))
 	}
+	_, again := mr.blobs[p.digest]
 	g.acceptManifest(p)
+	// an acknowledged push is a recent push, whether or not the bytes were stored before
+	g.touchAges()
+	if again && g.age[rn][p.digest] > 0 {
+		g.class("old-manifest-pushed-again")
+	}
+	g.age[rn][p.digest] = 0
 }
 
 func (g *gcState) opDelete(t *rapid.T) {
@@ -521,6 +561,10 @@ func (g *gcState) opDelete(t *rapid.T) {
 
 func (g *gcState) opAdvance(t *rapid.T) {
 	d := rapid.SampledFrom([]time.Duration{30 * time.Minute, 2 * time.Hour}).Draw(t, "delta")
+	g.advance(d)
+}
+
+func (g *gcState) advance(d time.Duration) {
 	g.logf("advance %v", d)
 	g.touchAges()
 	for _, rn := range gcRepos {
